@@ -300,6 +300,63 @@ def h_tokens_misc(which: int, s: int):
     return finish(ok, s >= 1, ("misc", w, s, W.ntok))
 
 
+# ---- sizes: synchronous arguments never suspend, whatever the input size -------------------------
+SIZE_OPS = ("sorted", "sorted-key", "list", "tuple", "set", "dict", "sum", "min", "max-key", "all", "any", "reduce", "nlargest", "map-list", "zip-list", "filter-list", "islice-list", "batched-list", "chain-list", "merge-list", "groupby-list", "tee-list", "accumulate-list")
+
+
+def h_sync_sizes(which: int, size: int):
+    """
+    pre: 0 <= which < len(SIZE_OPS) and 0 <= size <= P("SZ", 6)
+    post: _[0]
+    post: not _[1]
+    """
+    reset_run()
+    W = World("a")
+    D = Driver(W, sync_only=True)
+    w = 0
+    for i in range(len(SIZE_OPS)):
+        if which == i:
+            w = i
+    op = SIZE_OPS[w]
+    data = []
+    for i in range(size):
+        data.append((i * 7) % 11)
+    ident = lambda v: v  # noqa: E731
+    calls = {
+        "sorted": lambda: A.sorted(data),
+        "sorted-key": lambda: A.sorted(data, key=ident),
+        "list": lambda: A.list(data),
+        "tuple": lambda: A.tuple(data),
+        "set": lambda: A.set(data),
+        "dict": lambda: A.dict([(v, v) for v in data]),
+        "sum": lambda: A.sum(data),
+        "min": lambda: A.min(data, default=None),
+        "max-key": lambda: A.max(data, key=ident, default=None),
+        "all": lambda: A.all([1 for _ in data]),
+        "any": lambda: A.any([0 for _ in data]),
+        "reduce": lambda: A.reduce(lambda a, b: b, data, None),
+        "nlargest": lambda: A.nlargest(data, 3),
+        "map-list": lambda: A.list(A.map(ident, data)),
+        "zip-list": lambda: A.list(A.zip(data, data)),
+        "filter-list": lambda: A.list(A.filter(None, data)),
+        "islice-list": lambda: A.list(A.islice(data, 1, None, 2)),
+        "batched-list": lambda: A.list(A.batched(data, 3)),
+        "chain-list": lambda: A.list(A.chain(data, data)),
+        "merge-list": lambda: A.list(A.merge(sorted(data), sorted(data))),
+        "groupby-list": lambda: A.list(A.map(lambda kg: kg[0], A.groupby(sorted(data)))),
+        "tee-list": lambda: A.list(A.tee(data, 2)[0]),
+        "accumulate-list": lambda: A.list(A.accumulate(data, initial=0)),
+    }
+    ok = True
+    try:
+        r = D.call(calls[op]())
+        if r[0] != "ok":
+            ok = fail("sizes:%s-raised" % op, r) and ok
+    except Suspended:
+        ok = fail("sizes:%s-suspended-with-synchronous-arguments(size-%s)" % (op, "large" if size > 64 else "small")) and ok
+    return finish(ok, size >= 2, ("sizes", op, size if size <= 64 else -1))
+
+
 def _grid():
     import random
 
@@ -317,7 +374,7 @@ def _grid():
     return out
 
 
-GRID = {"h_tokens": _grid, "h_tokens_misc": lambda: [(w, s) for w in range(13) for s in range(3)]}
+GRID = {"h_sync_sizes": lambda: [(w, sz) for w in range(len(SIZE_OPS)) for sz in (0, 1, 5, 1000, 10001, 70000)], "h_tokens": _grid, "h_tokens_misc": lambda: [(w, s) for w in range(13) for s in range(3)]}
 
 TOOLS1 = ["filter", "filter_none", "filterfalse", "takewhile", "dropwhile", "pairwise", "cycle", "accumulate_f", "accumulate_f_init", "enumerate", "batched", "starmap", "islice", "iter_sentinel"]
 TOOLS2 = ["zip", "zip_longest", "map", "chain", "chain_from", "compress", "merge"]
@@ -348,11 +405,12 @@ def jobs(tier):
         for op in AGGS1:
             add("h_tokens", op=op, S=1, N=N1, X=(0, 2), Y=((0, 1) if q else (0, 2)), fl=fl, ffl=ffl)
     add("h_tokens_misc")
+    add("h_sync_sizes", SZ=(4 if q else 8), preflight_budget=90)
     return J
 
 
 BOUNDS = {
-    "quick": "user awaitables (source pulls, async callables, locks, context managers) suspend 0..2 times (sources, locks, context managers) / 0..1 times (callables) each (symbolic), every suspension yields a fresh token object and expects its token-specific reply; N<=2 items (two-source tools N<=1); 13 further operation classes (contextmanager, ExitStack, lru_cache, cached_property+lock, any_iter, await_each, apply, sync, scoped_iter/borrow, tee+lock, groupby, closing/nullcontext/decorator); asyncio loop accessors stubbed to raise",
+    "quick": "user awaitables (source pulls, async callables, locks, context managers) suspend 0..2 times (sources, locks, context managers) / 0..1 times (callables) each (symbolic), every suspension yields a fresh token object and expects its token-specific reply; N<=2 items (two-source tools N<=1); 13 further operation classes (contextmanager, ExitStack, lru_cache, cached_property+lock, any_iter, await_each, apply, sync, scoped_iter/borrow, tee+lock, groupby, closing/nullcontext/decorator); asyncio loop accessors stubbed to raise; 23 operations over synchronous inputs of symbolic size 0..4 plus, natively in the pre-flight only, sizes 1000, 10001 and 70000",
     "thorough": "N<=3 (two-source tools N<=2)",
 }
 OUTSIDE = ["running under real asyncio/trio loops (nothing loop-specific can be reached without failing the token or loop-accessor checks, but that is an argument, not a check)", "lengths above the bound"]
